@@ -90,6 +90,27 @@ def staircase(n, ny=2):
     return m
 
 
+def hook():
+    """full bottom layer, a column (0,0,1..3) and one cell (1,0,3) beside its top: the second sweep adds exactly one cell
+    and the flood fill is not finished yet (catches loops that stop on 'almost no change')"""
+    m = zeros((3, 2, 4))
+    for i in range(3):
+        for j in range(2):
+            m[i][j][0] = 1
+    for z in (1, 2, 3):
+        m[0][0][z] = 1
+    m[1][0][3] = 1
+    return m
+
+
+# designs in which the air pass of connect_holes_and_structures cuts material loose (the final removal is needed)
+DETACHED = [
+    [[[1, 1, 1], [1, 0, 0], [0, 1, 1]], [[1, 0, 0], [0, 1, 1], [1, 1, 0]], [[0, 1, 1], [1, 0, 1], [0, 0, 1]], [[1, 0, 0], [1, 1, 0], [1, 0, 0]]],
+    [[[0, 1, 1], [0, 1, 1], [1, 1, 0], [0, 1, 1]], [[1, 0, 1], [1, 0, 0], [0, 1, 1], [1, 0, 0]], [[1, 0, 1], [1, 1, 1], [1, 1, 0], [1, 0, 1]],
+     [[1, 1, 0], [0, 1, 0], [1, 1, 1], [1, 1, 0]]],
+]
+
+
 def invert(m):
     return [[[1 - v for v in r] for r in p] for p in m]
 
@@ -128,7 +149,8 @@ def gen_cases(ctx):
     if ctx.quick:
         cases += [case("remove", serpentine(7))]
     for n in ctx.pick([3], [2, 3, 5]):
-        cases += [case("remove", staircase(n)), case("polymer", staircase(n, 1))]
+        cases += [case("remove", staircase(n))]
+    cases += [case("remove", hook()), case("polymer", hook())] + [case("connect", m) for m in DETACHED]
     # one-layer and thin boxes (crashed / lost everything before the fix)
     for shape in ctx.pick([(4, 5, 1), (2, 4, 4)], [(4, 5, 1), (1, 1, 1), (2, 4, 4), (1, 5, 4), (4, 4, 2), (5, 2, 5), (6, 1, 1), (1, 1, 6)]):
         for _ in range(2):
